@@ -38,9 +38,13 @@ where
     self.fn_next.call_if_available(x);
   }
   pub fn error(&self, x: RxError) {
+    self.fn_next.clear();
+    self.fn_complete.clear();
     self.fn_error.call_and_clear_if_available(x);
   }
   pub fn complete(&self) {
+    self.fn_next.clear();
+    self.fn_error.clear();
     self.fn_complete.call_and_clear_if_available(());
   }
   pub fn unsubscribe(&self) {
